@@ -404,3 +404,25 @@ V("c18-corrupt-coordinate", "fault", "C18", D_ + "platonic.json", "-0.6981312901
 V("c18-corrupt-repository-copy", "fault", "C18", D_ + "science1220869.json", "1.249024766483406", "1.249024766493406", rule=None)
 V("c18-type-string", "fault", "C18", D_ + "platonic.json", '"Cube": {\n        "type": "ConvexPolyhedron"', '"Cube": {\n        "type": "Mesh"', rule="ENTRY")
 V("c18-rename-entry", "fault", "C18", D_ + "platonic.json", '"Cube": {', '"Hexahedron": {', rule=None)
+
+# ------------------------------------------------------------------------------------------ C20
+IO = "coxeter/io.py"
+V("c20-obj-zero-based", "fault", "C20", IO, "str(v_index+1) for v_index in f", "str(v_index) for v_index in f", rule="IDX-1")
+V("c20-ply-one-based", "fault", "C20", IO, "str(int(v_index)) for v_index in f", "str(int(v_index) + 1) for v_index in f", rule="IDX-1")
+V("c20-ply-count-swapped", "fault", "C20", IO, 'f"element vertex {len(shape.vertices)}\\n"', 'f"element vertex {len(shape.faces)}\\n"', rule="CNT-1")
+V("c20-vtk-polygons-size", "fault", "C20", IO, 'content += f"POLYGONS {num_points} {num_points + num_connections}\\n"', 'content += f"POLYGONS {num_points} {num_connections}\\n"', rule="CNT-1")
+V("c20-vtk-header-order", "fault", "C20", IO, '        f"ASCII\\n"\n', '        f"BINARY\\n"\n', rule="FMT-1")
+V("c20-obj-precision", "fault", "C20", IO, "content += f\"v {' '.join([str(coord) for coord in v])}\\n\"", "content += f\"v {' '.join([f'{coord:.6f}' for coord in v])}\\n\"", rule=None, allow_error=True)
+V("c20-vtk-precision", "fault", "C20", IO, 'content += f"{v[0]} {v[1]} {v[2]}\\n"', 'content += f"{v[0]:.8g} {v[1]:.8g} {v[2]:.8g}\\n"', rule="PREC-0")
+V("c20-stl-fan", "fault", "C20", IO, "for b, c in zip(f[1:], f[2:])", "for b, c in zip(f[1:], f[1:])", rule="STL-1")
+V("c20-stl-normal-flipped", "fault", "C20", IO, "n = np.cross(t[1] - t[0], t[2] - t[1])", "n = np.cross(t[2] - t[1], t[1] - t[0])", rule="STL-1")
+V("c20-stl-missing-endloop", "fault", "C20", IO, 'file.write("\\tendloop\\nendfacet\\n")', 'file.write("endfacet\\n")', rule="FMT-1")
+V("c20-stl-no-deepcopy", "fault", ["C20", "C16"], IO, "        shape = deepcopy(shape)\n", "", rule=None)
+V("c20-off-face-no-arity", "fault", "C20", IO, "content += f\"{len(f)} {' '.join([str(v_index) for v_index in f])}\\n\"\n\n    content = content[:-1]\n\n    with open(filename, \"w\")", "content += f\"{' '.join([str(v_index) for v_index in f])}\\n\"\n\n    content = content[:-1]\n\n    with open(filename, \"w\")", rule=None)
+V("c20-x3d-no-separator", "fault", "C20", IO, "point_indices.insert(len(f) + prev_index, -1)", "point_indices.insert(len(f) + prev_index, 0)", rule="X3D-1")
+V("c20-x3d-coordinate-parent", "fault", "C20", IO, "        x3d_indexedfaceset,\n        \"Coordinate\",", "        x3d_shape,\n        \"Coordinate\",", rule="X3D-1")
+V("c20-html-no-embed", "fault", "C20", IO, "    body.append(x3d.getroot())\n", "", rule="X3D-1")
+V("c20-save-wrong-writer", "fault", "C20", P + "polyhedron.py", '        elif filetype == "PLY":\n            io.to_ply(self, filename)', '        elif filetype == "PLY":\n            io.to_off(self, filename)', rule="DISP-1")
+V("c20-save-unknown-silent", "fault", "C20", P + "polyhedron.py",
+  '        else:\n            raise ValueError(\n                "filetype must be one of the following: OBJ, OFF, "\n                "STL, PLY, VTK, X3D, HTML"\n            )', '        else:\n            io.to_obj(self, filename)', rule="DISP-1")
+V("c20-rw-join-generator", "rewrite", "C20", IO, "content += f\"v {' '.join([str(coord) for coord in v])}\\n\"", "content += \"v \" + ' '.join([str(coord) for coord in v]) + \"\\n\"")
